@@ -39,6 +39,9 @@ def bound(b, runs=0):
 def render_query(q):
     f = q["form"]
     p, r = "P.L1", "P.L2"
+    if "op" in q:
+        p = {"or": "P.L1 || P.v > 1", "orkw": "P.L1 or P.v > 1", "and": "P.L1 && P.v > 1", "imply": "P.L1 imply P.v > 1", "not": "!P.L1", "ite": "P.v > 1 ? P.L1 : P.L2",
+             "forall": "forall (q : int[0,1]) arr[q] >= 0", "cmp": "P.v + 1 > 2"}[q["op"]]
     path = {"box": "[]", "diamond": "<>"}
     sub = " under S" if q.get("sub") == "under" else ""
     if f == "AG": return "A[] %s" % p
@@ -72,7 +75,7 @@ def render_query(q):
     if f == "control_AG": return "control: A[] %s%s" % (p, sub)
     if f == "control_AF": return "control: A<> %s%s" % (r, sub)
     if f == "control_until": return "control: A[ %s U %s ]%s" % (p, r, sub)
-    if f == "control_buchi": return "control: A[] (%s %s A<> %s)%s" % (p, q["conj"], r, sub)
+    if f == "control_buchi": return "control: A[] (%s %s A<> %s)%s" % ("(%s)" % p if "op" in q else p, q["conj"], r, sub)      # the conjunction of the objective binds tighter than `or`, `imply`, `?:`
     if f == "ef_control": return "E<> control: A[] %s%s" % (p, sub)
     if f == "po_control": return "{ %s, P.v } control: A<> %s%s" % (p, r, sub)
     if f == "control_t2": return "control_t*(5,2): A<> %s" % r
